@@ -846,7 +846,7 @@ def delete_unused_functions_and_classes(
             name_usages[name.id].add(node)
 
     constructors = collections.defaultdict(set)
-    for node in classdefs:
+    for node in core.walk(root, ast.ClassDef):
         for child in filter(parsing.is_magic_method, node.body):
             constructors[node].add(child)
 
